@@ -111,9 +111,9 @@ func (e *Engine) isMatchNFA(haystack []byte) bool {
 				return true
 			}
 
-			// Move past this position
+			// Unanchored verification failed: no match at or after pos (see findIndicesNFA).
 			atomic.AddUint64(&e.stats.PrefilterMisses, 1)
-			at = pos + 1
+			return false
 		}
 		return false
 	}
